@@ -99,7 +99,25 @@ func gs() string {
 	return strings.Repeat("a", ctr%3)
 }
 
+// alt is an impure operand whose value alternates between 0 and 3 (the first call of a run returns 0).
+func alt() int {
+	ctr++
+	effects = append(effects, fmt.Sprint("alt", ctr))
+	if ctr%2 == 1 {
+		return 0
+	}
+	return 3
+}
+
 func double(x int) int { return 2 * x }
+
+// okf calls its argument (a boolean expression can hide another one inside a function literal).
+func okf(f func() bool) bool { return f() }
+
+type node struct {
+	next *node
+	val  int
+}
 
 func marker(k int) { effects = append(effects, fmt.Sprint("marker", k)) }
 
